@@ -376,7 +376,9 @@ class Tensor:
             if node not in visited_nodes:
                 visited_nodes.add(node)
                 for child in node._children:
-                    if child.requires_grad and child._grad is None:
+                    # leaves accumulate across calls; what an earlier call left on an intermediate
+                    # result (retained, or kept because it was that call's root) must not be propagated again
+                    if child.requires_grad and (child._grad is None or not child.is_leaf):
                         child.zero_()
                     visit_node(child)
                 ordered_nodes.append(node)
